@@ -655,6 +655,9 @@ func helperGoTest(fn string, arg int) string {
 // Replay
 
 func replay(class string, raw json.RawMessage) (string, bool) {
+	if class == "C11:unpack-message-reuse" {
+		return replayMessageReuse(raw)
+	}
 	if class == "C11:unpack-trailing-octets" {
 		return replayTrailing(raw)
 	}
